@@ -37,7 +37,7 @@ def check_closure_idioms(ctx, extra_roots=()):
                        check_sorted_results_unsorted)
     from .nodekeys import check_memo_keys
     from .capacity import (check_index_dtype, check_borrowed_dtype,
-                           check_sum_capacity)
+                           check_sum_capacity, check_bound_kind)
     from . import cursors as CU
     db = ctx.db
     seeds = [q for q in sorted(ctx.functions_analysed)
@@ -65,7 +65,7 @@ def check_closure_idioms(ctx, extra_roots=()):
                      check_whole_axis, check_request_order,
                      check_unsort_pairs, check_sorted_results_unsorted,
                      check_memo_keys, check_index_dtype, check_borrowed_dtype,
-                     check_sum_capacity, check_tiling,
+                     check_sum_capacity, check_bound_kind, check_tiling,
                      check_window_writes, check_buffer_windows,
                      check_store_advances, CU.check_cursors,
                      CU.check_advance):
